@@ -53,12 +53,14 @@ pub const MESSAGES: &[&str] = &[
     "ünïcödé 🦀", "multi\nline", "tab\t", "Red", "x", "a longer message, with punctuation; and more.",
 ];
 
-pub const PREFIXES: &[&str] = &["", "pre", "colour/", "ns::", "P_", "é", "日本", " ", "Pre Fix-", "ß"];
+pub const PREFIXES: &[&str] = &["", "pre", "colour/", "ns::", "P_", "é", "日本", " ", "Pre Fix-", "ß", "{{ns}}/", "{", "}}"];
 pub const PREFIXES_PLAIN: &[&str] = &["", "pre", "colour/", "ns::", "P_", "é", "日本", " "];
 
 pub const PROP_KEYS: &[&str] = &[
     "Teacher", "Room", "students", "mandatory", "type", "fn", "match", "Self", "crate", "key", "Key", "KEY", "k",
     "color", "colour", "x1", "_u", "r", "self", "super", "async", "dyn", "long_key_name_here",
+    // non-ASCII identifiers (byte length differs from the number of characters)
+    "crème", "größe", "ключ", "名",
 ];
 
 pub const FIELD_NAMES: &[&str] = &["x", "y", "name", "age", "range", "inner", "value", "f0", "s", "r#type", "f", "fmt", "field0", "xx", "v", "prop", "func", "idx"];
